@@ -51,6 +51,7 @@ type typeRunner struct {
 	types  func(TCase) pbt.Outcome
 	big    func(BCase) pbt.Outcome
 	repeat func(RCase) pbt.Outcome
+	edge   func(ECase) pbt.Outcome
 }
 
 var (
@@ -83,6 +84,7 @@ func addKit[E any](k *kit[E]) {
 		types:  func(c TCase) pbt.Outcome { return runElems(k, c) },
 		big:    func(c BCase) pbt.Outcome { return runBig(k, c) },
 		repeat: func(c RCase) pbt.Outcome { return runRepeat(k, c) },
+		edge:   func(c ECase) pbt.Outcome { return runEdge(k, c) },
 	}
 	typeNames = append(typeNames, k.name)
 }
